@@ -68,3 +68,34 @@ package smpp
 //@     invariant @ser forall k int :: mapdom(tlvs, k) <==> (mapdom(M, k) && ordinv(ord, k) < iter)
 //@     invariant @ser forall k int :: mapdom(tlvs, k) ==> tlvs[k].tag == M[k].tag && tlvs[k].length == M[k].length && content(tlvs[k].value) == content(M[k].value)
 //@     decreases len(packet.rem(r))
+
+// ReadTLVs (the error-returning twin): default behaviour = arbitrary input (safety, termination, well-formed result);
+// behaviour `ser` = the input is the serialisation, in any order, of a well-formed parameter set.
+
+//@ func ReadTLVs
+//@   props C16,C03
+//@   requires packet.rinv(r)
+//@   modifies r.buffer.unread, r.opError
+//@   ensures packet.rinv(r)
+//@   ensures [C16,C11 wf] tlvwf(result)
+//@   ensures [C16 err] err != nil ==> len(result) == 0
+//@   ensures [C03 consumed] len(packet.rem(r)) <= old(len(packet.rem(r)))
+//@   ensures [C03 sticky] old(packet.rfailed(r)) ==> packet.rfailed(r)
+//@   ensures [C03 alloc] alloc <= old(alloc) + 25 * (old(len(packet.rem(r))) - len(packet.rem(r))) + 65536 + 256
+//@   option alloc = 25 * len(packet.rem(r)) + 65536 + 256
+//@   behavior ser props=C16,C01,C02
+//@   ghost M TLVs, ord Ord
+//@   requires !packet.rfailed(r)
+//@   requires isperm(ord, M) && tlvwf(M) && packet.rem(r) == tlvser(M, ord, 0, len(M))
+//@   ensures [C16,C01,C02 parsed] err == nil && !packet.rfailed(r) && mapeq(result, M)
+//@   loop 1
+//@     invariant packet.rinv(r)
+//@     invariant tlvwf(tlvs)
+//@     invariant len(packet.rem(r)) <= entry(len(packet.rem(r)))
+//@     invariant entry(packet.rfailed(r)) ==> packet.rfailed(r)
+//@     invariant alloc <= entry(alloc) + 25 * (entry(len(packet.rem(r))) - len(packet.rem(r)))
+//@     invariant @ser 0 <= iter && iter <= len(M) && !packet.rfailed(r) && packet.rem(r) == tlvser(M, ord, iter, len(M))
+//@     invariant @ser len(tlvs) == iter
+//@     invariant @ser forall k int :: mapdom(tlvs, k) <==> (mapdom(M, k) && ordinv(ord, k) < iter)
+//@     invariant @ser forall k int :: mapdom(tlvs, k) ==> tlvs[k].tag == M[k].tag && tlvs[k].length == M[k].length && content(tlvs[k].value) == content(M[k].value)
+//@     decreases len(packet.rem(r))
